@@ -26,5 +26,7 @@ def main(tier):
     pure.run(P, rep, pure.query_roots(P))
     rep.explanation = ("Membership predicates as normalised relations over the two distances, inclusive depth gate, agreement of the two "
                        "call sites of the curved-planes kernel and of the starting radius, unswapped hand-over of the two distances up to "
-                       "World::distance_to_plane, slab/fault sibling agreement with a frozen table of explained differences.")
+                       "World::distance_to_plane, slab/fault sibling agreement with a frozen table of explained differences; symbolic "
+                       "evaluation of one segment step of the slab-frame kernel against the planar construction (straight line, circular arc on "
+                       "14 paths incl. probes just outside the rounding guards, rotated axis and common origin of the local frame).")
     return rep.finish()
